@@ -14,16 +14,17 @@ MCOkPaths == {"rel1", "rel2"}
 MCLower(sig) == IF sig = "mixed" THEN "mixedlower" ELSE sig
 Vs     == {"V1", "V2"}
 As     == MCBin \cup {"src", "nosrc", "unknown"}
-Forms  == IF Wide THEN MCOkForms \cup {"noepoch", "unparsable", "colonjunk"} ELSE {"canon", "dirrpm", "noepoch", "unparsable"}
-Paths  == IF Wide THEN MCOkPaths \cup {"abs", "empty"} ELSE {"rel1", "abs", "empty"}
-Sigs   == IF Wide THEN {"null", "lower", "mixed"} ELSE {"null", "mixed"}
+\* "dircolon" / "relcolon": no epoch, but a ':' in the directory prefix / in the release
+Forms  == (IF Wide THEN MCOkForms \cup {"noepoch", "unparsable", "colonjunk"} ELSE {"canon", "dirrpm", "noepoch", "unparsable"}) \cup {"dircolon", "relcolon"}
+Paths  == (IF Wide THEN MCOkPaths \cup {"abs", "empty"} ELSE {"rel1", "abs", "empty"}) \cup {"int"}
+Sigs   == (IF Wide THEN {"null", "lower", "mixed"} ELSE {"null", "mixed"}) \cup {"int"}
 CatsA  == MCCats \cup {"invalid"}
-Srpms  == {"none", "s1", "s2"}
+Srpms  == {"none", "s1", "s2", "empty"}         \* "empty": the empty string (rendered so whatever the form; carried with form "noepoch", which is refused)
 SForms == IF Wide THEN {"canon", "rpm", "noepoch", "unparsable"} ELSE {"canon", "noepoch"}
 Rec(v, a, r, f, p, s, c, sr, sf) == [op |-> "add", v |-> v, a |-> a, r |-> r, form |-> f, path |-> p, sig |-> s,
                                      cat |-> c, srpm |-> sr, sform |-> sf, out |-> out']
 Matrix == \E v \in {"V1"}, a \in As, r \in DOMAIN MCRpm, f \in Forms, p \in Paths, s \in Sigs, c \in CatsA, sr \in Srpms, sf \in SForms :
-             /\ (sr = "none" => sf = "canon")
+             /\ (sr = "none" => sf = "canon") /\ (sr = "empty" => sf = "noepoch")
              /\ Add(v, a, r, f, p, s, c, sr, sf)
              /\ hist' = Append(hist, Rec(v, a, r, f, p, s, c, sr, sf))
 \* history alphabet: valid adds (two variants, two arches, all rpms, two paths, two sigkeys) + a few refusals
